@@ -66,6 +66,12 @@ def _drop_weakref_gc_patch():
     import crosshair.core as core
 
     core._PATCH_REGISTRATIONS.pop(ref.__call__, None)
+    # CrossHair also bypasses functools.lru_cache under tracing (every call recomputes).  Memoisation is real,
+    # observable behaviour of the code under test (a cache keyed too coarsely is exactly what C16/C17 look for), so
+    # the real cache is kept; symbolic values never reach an lru_cache key in our harnesses.
+    from functools import _lru_cache_wrapper
+
+    core._PATCH_REGISTRATIONS.pop(_lru_cache_wrapper.__call__, None)
 
 
 # --------------------------------------------------------------------------- functions executed
